@@ -50,6 +50,10 @@ impl BytesMut {
 }
 impl Bytes {
     #[verifier::external_body]
+    pub fn slice_bytes(&self, a: usize, b: usize) -> (r: Bytes) requires a <= b <= self@.len() ensures r@ == self@.subrange(a as int, b as int) { Bytes { v: self.v[a..b].to_vec() } }
+    #[verifier::external_body]
+    pub fn slice(&self, a: usize, b: usize) -> (r: &[u8]) requires a <= b <= self@.len() ensures r@ == self@.subrange(a as int, b as int) { &self.v[a..b] }
+    #[verifier::external_body]
     pub fn as_ref(&self) -> (r: &[u8]) ensures r@ == self@ { &self.v[..] }
     #[verifier::external_body]
     pub fn new() -> (r: Bytes) ensures r@ == Seq::<u8>::empty() { Bytes { v: Vec::new() } }
